@@ -87,8 +87,8 @@ const INNERS: [Inner; 17] = [
 
 fn int_bound(t: IntTy, pos: &Index, spell: &Index, lower: bool) -> Bound {
     // positions: a spread over the type's range; lower bounds from the lower half, upper from the upper half
-    let lows: Vec<i128> = vec![t.min_v(), t.min_v() + 1, if t.signed() { -100 } else { 0 }, if t.signed() { -1 } else { 1 }, 0, 1, 3];
-    let highs: Vec<i128> = vec![4, 7, 20, 100, 126, t.max_v() - 1, t.max_v()];
+    let lows: Vec<i128> = vec![t.min_v(), t.min_v(), t.min_v() + 1, if t.signed() { -100 } else { 0 }, if t.signed() { -1 } else { 1 }, 0, 1, 3];
+    let highs: Vec<i128> = vec![4, 7, 20, 100, 126, t.max_v() - 1, t.max_v(), t.max_v()];
     let v = if lower { lows[pos.index(lows.len())] } else { highs[pos.index(highs.len())] };
     // expression spellings that denote exactly `v` exist only for some values; otherwise a literal
     let sp = spell.index(6);
@@ -116,9 +116,14 @@ fn int_bound(t: IntTy, pos: &Index, spell: &Index, lower: bool) -> Bound {
 }
 
 fn float_bound(ty: &str, pos: &Index, spell: &Index, lower: bool) -> Bound {
-    let lows = [-1e30, -1000.5, -5.0, -1.0, -0.0, 0.0, 1e-3, 1.0];
-    let highs = [2.5, 7.0, 100.0, 1000.0, 16777217.0, 1e30];
+    let big = if ty == "f32" { 3e38 } else { 1.5e308 };
+    let lows = [-big, -1e30, -1000.5, -5.0, -1.0, -0.0, 0.0, 1e-3, 1.0];
+    let highs = [2.5, 7.0, 100.0, 1000.0, 16777217.0, 1e30, big];
     let v: f64 = if lower { lows[pos.index(lows.len())] } else { highs[pos.index(highs.len())] };
+    if v.abs() == big && spell.index(3) == 0 {
+        let text = if v < 0.0 { format!("{ty}::MIN") } else { format!("{ty}::MAX") };
+        return expr_f(if v < 0.0 { "type-min" } else { "type-max" }, &text, if v < 0.0 { f64::MIN } else { f64::MAX });
+    }
     match (spell.index(5), v) {
         (0, x) if x == 100.0 => expr_f("const", "KB", 100.0),
         (1, x) if x == -5.0 => expr_f("neg-const", "-KA", -5.0),
@@ -231,8 +236,15 @@ fn build(c: &Choices) -> Decl {
         d.vals = if picked.is_empty() { Vals::None } else { Vals::Std(picked) };
     }
     // default
-    match c.default_kind.index(4) {
+    // a default exactly at one of the declared bounds (the interesting place for exclusive bounds)
+    let bound_texts: Vec<String> = d.std_vals().iter().filter_map(|v| v.bound()).filter(|_| !matches!(inner, Inner::Str)).map(|b| b.neutral_text.clone()).collect();
+    match c.default_kind.index(6) {
         0 => {}
+        4 | 5 if !bound_texts.is_empty() => {
+            let t = bound_texts[c.default_kind.index(bound_texts.len())].clone();
+            d.default = Some(DefaultSpec { macro_text: t.clone(), neutral_text: t, class: "at-bound".into() });
+        }
+        4 | 5 => {}
         k => {
             let (m, class) = match inner {
                 Inner::Int(_) => [("5", "maybe"), ("100", "maybe"), ("KA + 2", "expr")][k - 1],
